@@ -625,6 +625,11 @@ impl<'a> Walk<'a> {
             _ => self.do_probe(ctx, rng),
         }
         ctx.state(self.sim.abstract_state());
+        let g = self.sim.ngram();
+        if !ctx.states.contains(&g) {
+            ctx.count("distinct-op-3grams.sum-over-shards");
+        }
+        ctx.state(g);
     }
 
     /// no new requests; deliver what is in flight, then follow the timer until nothing is armed
